@@ -18,6 +18,7 @@ theorem LE.eval_01 (x : Asg) : ∀ l : LE, l.eval x = 0 ∨ l.eval x = 1
     have := LE.eval_01 x l
     simp only [LE.eval]
     rcases this with h | h <;> rw [h] <;> grind
+  | .iff a b => by simp only [LE.eval, b2r]; split <;> simp
 
 theorem flatCons_spec (n0 : Nat) (cs : List (NE × Option Rat × Option Rat)) (S : FS) :
     S.defs <+: (flatCons cs S).2.defs ∧
